@@ -87,8 +87,8 @@ func init() {
 
 type c02State struct {
 	contPending  bool
-	contNoCond   bool // a continue was taken and the loop's per-iteration condition has not been evaluated since
-	contLoop     *ast.RangeStmt // … in the body run by this statement loop
+	contNoCond   bool                  // a continue was taken and the loop's per-iteration condition has not been evaluated since
+	contLoop     *ast.RangeStmt        // … in the body run by this statement loop
 	contSrc      map[types.Object]bool // the control variable(s) found to hold the continue (tested variable, type-switch binding)
 	breakPending bool
 	breakCond    bool                          // a condition was evaluated inside the break arm (e.g. a level test)
